@@ -265,6 +265,14 @@ def _config_scenario(g, opname, X, A2, b):
     fullb = ten(op(X2, A2[0]))
     for k in range(2):
         out.append(('batch of elements x one vector, item %d' % k, fullb[k], ten(op(X2[k], A2[0]))))
+    # a size-1 batch axis of the elements that is NOT leading: (2,1) elements against (2,2) vectors
+    Xc = mk(X2.tensor().unsqueeze(1))
+    Ab = pp.LieTensor(torch.stack([A2.tensor(), A2.tensor().flip(0)]), ltype=ATYPE[g])
+    if opname != '+':
+        fullc = ten(op(Xc, Ab))
+        for i_ in range(2):
+            for j_ in range(2):
+                out.append(('(2,1) elements x (2,2) vectors, item (%d,%d)' % (i_, j_), fullc[i_, j_], ten(op(X2[i_], Ab[i_, j_]))))
     Xh = mk(X.tensor().clone())
     op(Xh, A2[0])
     Xh.add_(b)
